@@ -19,6 +19,11 @@
     both sides, and for whole biclosed diagrams: the image is returned (no AxiomError), is
     well-typed, and its dom/cod are the images of the original's dom/cod — for the REPAIRED
     text of the code (`Variant.repaired`, findings F10 and F14).
+  * every rule box has the type its rule says, for independent X, Y, Z in CCG notation
+    (`X/Y = X << Y`, `X\Y = Y >> X`): FA X/Y Y ⇒ X, BA Y X\Y ⇒ X, FC X/Y Y/Z ⇒ X/Z,
+    BC Y\Z X\Y ⇒ X\Z, FX X/Y Y\Z ⇒ X\Z, BX Y/Z X\Y ⇒ X/Z (`rules_as_stated`); the images of the
+    crossed compositions written out for X ≠ Z, both variants
+    (`crossed_composition_type_preserving`).
   * For the code AS IT IS (`Variant.asIs`) the same statement is FALSE; the negation is proved
     on concrete witnesses (`ba_asIs_raises`, `ba_asIs_wrong_type`, `curry_asIs_raises`) and the
     positive theorem is kept with the excluding hypotheses (`…_partial`): BA's left side is one
@@ -130,6 +135,43 @@ theorem adjoint_laws (t a b : Ty) :
 theorem biclosed2rigid_type_preserving (r : Rule) (hc : r.check = true) :
     ∃ d, r.img Variant.repaired = .ok d ∧ d.WF ∧ d.dom = BTy.img r.dom ∧ d.cod = BTy.img r.cod :=
   Rule.img_has Variant.repaired r hc (Rule.okFor_repaired r)
+
+/-- Every rule box has the type its rule says, for independent `X`, `Y`, `Z` (`X/Y = X << Y`,
+    `X\Y = Y >> X`, the convention of `ccg.cat2ty`):
+
+        FA  X/Y  Y   ⇒ X        BA  Y    X\Y ⇒ X
+        FC  X/Y  Y/Z ⇒ X/Z      BC  Y\Z  X\Y ⇒ X\Z
+        FX  X/Y  Y\Z ⇒ X\Z      BX  Y/Z  X\Y ⇒ X/Z
+
+    and premises that fit the rule are accepted by the constructor. -/
+theorem rules_as_stated (X Y Z : BTy) :
+    ((Rule.fa X Y).check = true ∧ (Rule.fa X Y).dom = BTy.fwd X Y ++ Y ∧ (Rule.fa X Y).cod = X) ∧
+    ((Rule.ba Y X).check = true ∧ (Rule.ba Y X).dom = Y ++ BTy.bwd X Y ∧ (Rule.ba Y X).cod = X) ∧
+    ((Rule.fc X Y Y Z).check = true ∧ (Rule.fc X Y Y Z).dom = BTy.fwd X Y ++ BTy.fwd Y Z ∧
+      (Rule.fc X Y Y Z).cod = BTy.fwd X Z) ∧
+    ((Rule.bc Z Y Y X).check = true ∧ (Rule.bc Z Y Y X).dom = BTy.bwd Y Z ++ BTy.bwd X Y ∧
+      (Rule.bc Z Y Y X).cod = BTy.bwd X Z) ∧
+    ((Rule.fx X Y Z Y).check = true ∧ (Rule.fx X Y Z Y).dom = BTy.fwd X Y ++ BTy.bwd Y Z ∧
+      (Rule.fx X Y Z Y).cod = BTy.bwd X Z) ∧
+    ((Rule.bx Y Z Y X).check = true ∧ (Rule.bx Y Z Y X).dom = BTy.fwd Y Z ++ BTy.bwd X Y ∧
+      (Rule.bx Y Z Y X).cod = BTy.fwd X Z) := by
+  simp [Rule.check, Rule.dom, Rule.cod]
+
+/-- Crossed compositions with INDEPENDENT outer types `X`, `Z` (the library's own tests use
+    `X = Z`, where `X\Z` and `Z\X` coincide), both variants of the code: the image of
+    `FX(X/Y, Y\Z)` goes from `F X @ (F Y).l @ (F Z).r @ F Y` to `(F Z).r @ F X = F(X\Z)`, the
+    image of `BX(Y/Z, X\Y)` from `F Y @ (F Z).l @ (F Y).r @ F X` to `F X @ (F Z).l = F(X/Z)`. -/
+theorem crossed_composition_type_preserving (v : Variant) (X Y Z : BTy) :
+    (∃ d, (Rule.fx X Y Z Y).img v = .ok d ∧ d.WF ∧
+      d.dom = BTy.img X ++ Ty.l (BTy.img Y) ++ (Ty.r (BTy.img Z) ++ BTy.img Y) ∧
+      d.cod = Ty.r (BTy.img Z) ++ BTy.img X) ∧
+    (∃ d, (Rule.bx Y Z Y X).img v = .ok d ∧ d.WF ∧
+      d.dom = BTy.img Y ++ Ty.l (BTy.img Z) ++ (Ty.r (BTy.img Y) ++ BTy.img X) ∧
+      d.cod = BTy.img X ++ Ty.l (BTy.img Z)) := by
+  obtain ⟨d, h, w, hd, hc⟩ := Rule.img_has v (.fx X Y Z Y) (by simp [Rule.check]) trivial
+  obtain ⟨e, h', w', hd', hc'⟩ := Rule.img_has v (.bx Y Z Y X) (by simp [Rule.check]) trivial
+  exact ⟨⟨d, h, w, by rw [hd]; simp [Rule.dom, BTy.img_append], by rw [hc]; simp [Rule.cod]⟩,
+    ⟨e, h', w', by rw [hd']; simp [Rule.dom, BTy.img_append], by rw [hc']; simp [Rule.cod]⟩⟩
 
 /-- Words and generic boxes with an arbitrary domain, both variants: the image of
     `Word(name, cod, dom=dom, _dagger=dagger)` is the single box `name : F(dom) → F(cod)` (with the
@@ -289,6 +331,18 @@ private def z : BTy := [.atom "z"]
 /-- Composite, nested sides: `FA(((x << y) @ z) << (y @ (x >> z)))` has a 7-wire domain. -/
 example : okWith ((Rule.fa (BTy.over x y ++ z) (y ++ BTy.under x z)).img Variant.repaired)
     (fun d => d.dom.length == 9 && d.cod.length == 3 && d.boxes.length == 3) = true := by decide
+
+/-- Forward crossed composition with different outer types, `FX(x/y, y\(z @ x))`: the conclusion
+    is `x\(z @ x) = (z @ x) >> x` — NOT `x >> (z @ x)` — and the image's codomain is its image
+    `x.r @ z.r @ x`. -/
+example : (Rule.fx x y (z ++ x) y).cod = BTy.under (z ++ x) x ∧
+    (Rule.fx x y (z ++ x) y).cod ≠ BTy.under x (z ++ x) := by decide
+example : okWith ((Rule.fx x y (z ++ x) y).img Variant.current) (fun d =>
+    d.cod == [⟨"x", 1⟩, ⟨"z", 1⟩, ⟨"x", 0⟩] && d.cod == BTy.img (BTy.bwd x (z ++ x)) &&
+    d.dom.length == 5) = true := by decide
+/-- Backward crossed composition `BX(y/z, x\y)` with `x ≠ z`: conclusion `x/z`. -/
+example : okWith ((Rule.bx y z y x).img Variant.current) (fun d =>
+    d.cod == [⟨"x", 0⟩, ⟨"z", -1⟩] && d.dom.length == 4) = true := by decide
 
 /-- F10, the reported witness: with the code as it is `biclosed2rigid(BA((x @ y) >> z))` raises
     AxiomError … -/
